@@ -21,7 +21,7 @@ func init() {
 			"recorded through a host function); go-containers: every []interface{}/map[string]interface{} shape of the stated depth over 6 leaves; go-typed: typed slices, " +
 			"maps, arrays, structs by value and by pointer; js-prims: boundary JS values x Go predicates/conversions vs in-language typeof/Number/String/Boolean; " +
 			"js-json: every JSON-like container of the stated depth -> Export by value; js-arrays: every array of length <= 3 over 11 element kinds; js-nested: " +
-			"homogeneous nestings to depth 4 x leaf-kind pairs; calls: (callee kind x this x args) cells on 5 call paths. A case is non-trivial when the " +
+			"homogeneous nestings to depth 4 x leaf-kind pairs; calls: (callee kind x this x args) cells on 5 call paths; reentrant: every API path (Otto.Call with nil/null/object this and new, Value.Call, Object.Call, Run, Get, Set, Eval) issued from inside a host function called from 8 script contexts (global code, shadowing locals, parameters, closure, with, with in a function, nested catch clauses, method of a local object). A case is non-trivial when the " +
 			"value reached the runtime (Set/Run succeeded) so that all observations were made; distinct outcomes are distinct full observation vectors.",
 		Families: []engine.Family{
 			{Name: "go-scalars", Run: runGoScalars},
@@ -32,6 +32,7 @@ func init() {
 			{Name: "js-arrays", Run: runJSArrays},
 			{Name: "js-nested", Run: runJSNested},
 			{Name: "calls", Run: runCalls},
+			{Name: "reentrant", Run: runReentrant},
 		},
 		Assumptions: []string{
 			"ref/bridge is the reference: ES5 9.2/9.3.1/9.4/9.8.1 conversions, the natural JS counterpart of a Go value (nil and nil pointers are undefined, pointers transparent, numbers the nearest double, unexported fields absent)",
